@@ -244,6 +244,25 @@ def generate(rng: random.Random, tier: str):
                 bt = res(lambda: Node.from_json(sc, rt(j)), info.node)
                 yield Case(coq=f"CDecode @S@ {js(j)} {bt}", desc={"case": "decode", "family": fam, "json": j, "obs": bt[:60]},
                            schema=info.schema_term(), kind="malformed-json/" + bt[:14], nontrivial=False)
+    # marks whose attribute values are nested JSON (appended stream): the JSON of a node must not alias them either
+    for fam in gen.FAMILY:
+        g, docs = S.family_docs(rng, fam, 3 if quick else 20)
+        sc = gen.family(fam)
+        attrd = [t for t in sc.marks.values() if t.attrs]
+        if not attrd:
+            continue
+        for doc in docs:
+            t = rng.choice(attrd)
+            an = rng.choice(list(t.attrs))
+            at = {k: "foo" for k, a in t.attrs.items() if not a.has_default}
+            at[an] = rng.choice([[1, "a", None], {"k": [1, 2], "z": {"y": False}}, [[1], {"q": "r"}]])
+            mk = t.create(at)
+            tb = [nt for nt in sc.nodes.values() if nt.is_textblock and nt.allows_mark_type(t) and not nt.has_required_attrs()]
+            if not tb:
+                continue
+            para = rng.choice(tb).create(None, [sc.text("ab", [mk]), sc.text("cd")])
+            yield node_case(fam, para, "nested-mark-attrs")
+            yield mark_case(fam, mk, "mark-nested-attrs")
     # malformed step JSON (appended stream): a missing or mistyped field of every step type; the decoder's answer - the
     # step, or the class of the exception - must be the model's
     for fam in gen.FAMILY:
